@@ -515,9 +515,14 @@ func runProp(p propDef, tier string, seed int64, only string) int {
 	// replay files
 	rdir := filepath.Join(verifRoot, "evidence", "replay")
 	os.MkdirAll(rdir, 0o755)
-	old, _ := filepath.Glob(filepath.Join(rdir, p.ID+"-*.json"))
-	for _, o := range old {
-		os.Remove(o)
+	if only == "" {
+		old, _ := filepath.Glob(filepath.Join(rdir, p.ID+"-*.json"))
+		for _, o := range old {
+			os.Remove(o)
+		}
+	} else {
+		rdir = filepath.Join(rdir, "replayed") // a replay never overwrites the witnesses of the run it came from
+		os.MkdirAll(rdir, 0o755)
 	}
 	exit := 0
 	bySig := map[string]int{}
